@@ -278,6 +278,16 @@ where
     for entry in &proof.non_primitives {
         air_public_counts.push(entry.public_values.len());
     }
+    // `allocate` panics when the number of public-value lists differs from the number of
+    // instances. The former comes from the proof metadata and the latter from the inner proof,
+    // so a malformed proof can make them disagree.
+    let num_instances = proof.proof.opened_values.instances.len();
+    if num_instances != air_public_counts.len() {
+        return Err(VerificationError::InvalidProofShape(format!(
+            "instance count mismatch: proof metadata declares {} tables, inner proof opens {num_instances} instances",
+            air_public_counts.len(),
+        )));
+    }
     let verifier_inputs = BatchStarkVerifierInputsBuilder::<SC, Comm, OpeningProof>::allocate(
         circuit,
         &proof.proof,
